@@ -292,7 +292,9 @@ func sb(name string, doms []*dom, tmpl string, bytesToo bool) []*fn {
 		if pkg == "bytes" {
 			t = strings.ReplaceAll(t, "RS(", "rY(")
 			t = strings.ReplaceAll(t, "RL(", "rLY(")
+			t = strings.ReplaceAll(t, "TX(", "[]byte(")
 		} else {
+			t = strings.ReplaceAll(t, "TX(", "string(")
 			t = strings.ReplaceAll(t, "RS(", "rS(")
 			t = strings.ReplaceAll(t, "RL(", "rLS(")
 		}
@@ -463,7 +465,6 @@ rS(rp.Replace(a0))`))
 	add(sc(mk("strconv.ParseInt/texts", "strconv", []*dom{intTexts, dPBase, dBits}, "v, err := strconv.ParseInt(a0, int(a1), int(a2))\nrI(v)\nrNE(err)")))
 	add(sc(mk("strconv.ParseUint/texts", "strconv", []*dom{intTexts, dPBase, dBits}, "v, err := strconv.ParseUint(a0, int(a1), int(a2))\nrU(v)\nrNE(err)")))
 	// int-sized entry points: only where the 32-bit and the 64-bit answer coincide
-	const sameInt = "func sameInt(s string, base int) bool {\n\tx, e1 := strconv.ParseInt(s, base, 32)\n\ty, e2 := strconv.ParseInt(s, base, 64)\n\treturn x == y && (e1 == nil) == (e2 == nil)\n}\n"
 	add(sc(mk("strconv.Atoi", "strconv", []*dom{p4}, "v, err := strconv.Atoi(a0)\nrI(int64(v))\nrNE(err)")).decls(sameInt).guard("sameInt(a0, 10)"))
 	add(sc(mk("strconv.Atoi/texts", "strconv", []*dom{intTexts}, "v, err := strconv.Atoi(a0)\nrI(int64(v))\nrNE(err)")).decls(sameInt).guard("sameInt(a0, 10)"))
 	add(sc(mk("strconv.ParseInt/bitSize0", "strconv", []*dom{intTexts, dPBase}, "v, err := strconv.ParseInt(a0, int(a1), 0)\nrI(v)\nrNE(err)")).decls(sameInt).guard("a1 >= 2 && a1 <= 36 && sameInt(a0, int(a1)) || a1 == 0 && sameInt(a0, 0)"))
@@ -499,22 +500,6 @@ rS(rp.Replace(a0))`))
 	dPrec := ctl("prec", -1, 0, 1, 2, 6, 17, 20)
 	add(mk("strconv.FormatFloat", "strconv", []*dom{dFlt, dFmt, dPrec, ctl("fbits", 64, 32)}, "rS(strconv.FormatFloat(a0, byte(a1), int(a2), int(a3)))"))
 	add(mk("strconv.AppendFloat", "strconv", []*dom{dFlt, ctl("fmt3", 'e', 'f', 'g'), ctl("prec3", -1, 3)}, "rY(strconv.AppendFloat([]byte(\"x\"), a0, byte(a1), int(a2), 64))"))
-	const mkFDecl = `func mkF64(i int) float64 {
-	mant := []uint64{0, 1, 2, 0x8000000000000, 0xfffffffffffff, 0xffffffffffffe, 0x5555555555555, 0xaaaaaaaaaaaaa, 0x0000000100000, 0x7ffffffffffff, 0x8000000000001, 0x123456789abcd, 0xc000000000000, 0x0000000000fff, 0xe147ae147ae14, 0x999999999999a}
-	e := uint64(i % 2047)
-	m := mant[(i/2047)%16]
-	s := uint64(i / 2047 / 16)
-	return math.Float64frombits(s<<63 | e<<52 | m)
-}
-
-func mkF32(i int) float32 {
-	mant := []uint32{0, 1, 2, 0x400000, 0x7fffff, 0x7ffffe, 0x555555, 0x2aaaaa, 0x000100, 0x3fffff, 0x400001, 0x123456, 0x600000, 0x000fff, 0x4ccccd, 0x19999a}
-	e := uint32(i % 255)
-	m := mant[(i/255)%16]
-	s := uint32(i / 255 / 16)
-	return math.Float32frombits(s<<31 | e<<23 | m)
-}
-`
 	add(sc(mk("strconv.FormatFloat+ParseFloat/roundtrip64", "strconv", []*dom{rng("f64bits", 2047*16*2, "float64", "mkF64(%s)")},
 		"s := strconv.FormatFloat(a0, 'g', -1, 64)\nrS(s)\nv, err := strconv.ParseFloat(s, 64)\nrF(v)\nrNE(err)\nrB(v == a0)\nrS(strconv.FormatFloat(a0, 'e', -1, 64))\nrS(strconv.FormatFloat(a0, 'e', 5, 64))")).decls(mkFDecl).weight(4))
 	add(sc(mk("strconv.FormatFloat+ParseFloat/roundtrip32", "strconv", []*dom{rng("f32bits", 255*16*2, "float64", "float64(mkF32(%s))")},
@@ -603,24 +588,6 @@ rB(utf16.IsSurrogate(rune(a0)))`))
 		}
 		return t
 	}
-	// sequences are decoded from the index inside the body: length l = first l with idx < k^l (cumulative)
-	const seqDecl = `// seqDigits decodes sequence number idx (all sequences over k symbols by length, then lexicographic)
-func seqDigits(idx int64, k int64) []int {
-	l := 0
-	p := int64(1)
-	for idx >= p {
-		idx -= p
-		p *= k
-		l++
-	}
-	d := make([]int, l)
-	for i := l - 1; i >= 0; i-- {
-		d[i] = int(idx % k)
-		idx /= k
-	}
-	return d
-}
-`
 	add(mk("utf16.Encode", "unicode/utf16", []*dom{rng("seq16e", seqSize(8, seqLen), "int64", "int64(%s)")}, `
 al := []rune{0x41, 0xd7ff, 0xd800, 0xdfff, 0xffff, 0x10000, 0x10ffff, 0x110000}
 ds := seqDigits(a0, 8)
@@ -716,22 +683,6 @@ rU(uint64(bits.RotateLeft32(x, int(a1))))`))
 	// ---------------------------------------------------------------- encoding/*
 	dB4 := genStrs("b4", []string{"\x00", "A", "\xfb", "\xff"}, 3) // 85
 	dB2 := genStrs("b2", []string{"\x00", "\xff"}, 7)              // 255
-	const encDecl = `func b64(k int64) *base64.Encoding {
-	if k == 0 {
-		return base64.StdEncoding
-	}
-	if k == 1 {
-		return base64.URLEncoding
-	}
-	if k == 2 {
-		return base64.RawStdEncoding
-	}
-	if k == 3 {
-		return base64.RawURLEncoding
-	}
-	return base64.StdEncoding.Strict()
-}
-`
 	dEnc64 := ctl("enc64", 0, 1, 2, 3, 4)
 	b64enc := "e := b64(a1)\nrS(e.EncodeToString([]byte(a0)))\nrI(int64(e.EncodedLen(len(a0))))\nrI(int64(e.DecodedLen(len(a0))))\ndst := make([]byte, e.EncodedLen(len(a0)))\ne.Encode(dst, []byte(a0))\nrY(dst)\nback, err := e.DecodeString(string(dst))\nrY(back)\nrE(err)"
 	add(mk("base64.Encode", "encoding/base64", []*dom{dB4, dEnc64}, b64enc).decls(encDecl))
@@ -744,7 +695,6 @@ rU(uint64(bits.RotateLeft32(x, int(a1))))`))
 	add(mk("base64.Decode", "encoding/base64", []*dom{dD64, dEnc64}, "e := b64(a1)\nb, err := e.DecodeString(a0)\nrY(b)\nrE(err)\ndst := make([]byte, e.DecodedLen(len(a0))+4)\nn, err2 := e.Decode(dst, []byte(a0))\nrI(int64(n))\nrE(err2)\nif n >= 0 && n <= len(dst) {\n\trY(dst[:n])\n}").decls(encDecl))
 	dD64b := genStrs("d64b", []string{"A", "/", "="}, 8) // 9841: whole quanta with padding in every position
 	add(mk("base64.Decode/quanta", "encoding/base64", []*dom{dD64b, dEnc64}, "e := b64(a1)\nb, err := e.DecodeString(a0)\nrY(b)\nrE(err)").decls(encDecl))
-	const enc32Decl = "func b32(k int64) *base32.Encoding {\n\tif k == 0 {\n\t\treturn base32.StdEncoding\n\t}\n\treturn base32.HexEncoding\n}\n"
 	dEnc32 := ctl("enc32", 0, 1)
 	b32enc := "e := b32(a1)\nrS(e.EncodeToString([]byte(a0)))\nrI(int64(e.EncodedLen(len(a0))))\nrI(int64(e.DecodedLen(len(a0))))\ndst := make([]byte, e.EncodedLen(len(a0)))\ne.Encode(dst, []byte(a0))\nrY(dst)\nback, err := e.DecodeString(string(dst))\nrY(back)\nrE(err)"
 	add(mk("base32.Encode", "encoding/base32", []*dom{dB4, dEnc32}, b32enc).decls(enc32Decl))
@@ -757,22 +707,6 @@ rU(uint64(bits.RotateLeft32(x, int(a1))))`))
 	add(mk("base64.CorruptInputError.Error", "encoding/base64", []*dom{litStr("e64", []string{"A", "AA=A", "!AAA", "AAA!", "AAAAAAA=A", "A=AA"}, false)}, "_, err := base64.StdEncoding.DecodeString(a0)\nrEs(err)"))
 	add(mk("base32.CorruptInputError.Error", "encoding/base32", []*dom{litStr("e32", []string{"A", "AAAAAAA!", "!AAAAAAA", "AA======A", "A======="}, false)}, "_, err := base32.StdEncoding.DecodeString(a0)\nrEs(err)"))
 	add(mk("hex.InvalidByteError.Error", "encoding/hex", []*dom{litStr("ehex", []string{"g", "0g", "0", "\xff0", "000"}, false)}, "_, err := hex.DecodeString(a0)\nrEs(err)"))
-	const dataDecl = `func mkData(n int64, pat int64) []byte {
-	b := make([]byte, int(n))
-	for i := range b {
-		if pat == 0 {
-			b[i] = 0
-		} else if pat == 1 {
-			b[i] = 0xff
-		} else if pat == 2 {
-			b[i] = byte(i*7 + 3)
-		} else {
-			b[i] = byte(0x20 + i%0x60)
-		}
-	}
-	return b
-}
-`
 	add(mk("hex.Dump", "encoding/hex", []*dom{rng("len48", 49, "int64", "int64(%s)"), ctl("pat23", 2, 3)}, "rS(hex.Dump(mkData(a0, a1)))").decls(dataDecl).weight(8))
 	add(mk("binary.ByteOrder", "encoding/binary", []*dom{dB64}, `
 b := make([]byte, 8)
@@ -907,28 +841,6 @@ _, _ = m.Write(d[int(a1):])
 rY(s1)
 rY(m.Sum(nil))`).decls(dataDecl).guard("a1 <= a0").weight(40))
 
-	// ---------------------------------------------------------------- sort
-	const sortDecl = `type recs struct {
-	k ([]int32)
-	o ([]int32)
-}
-
-func (r *recs) Len() int           { return len(r.k) }
-func (r *recs) Less(i, j int) bool { return r.k[i] < r.k[j] }
-func (r *recs) Swap(i, j int) {
-	r.k[i], r.k[j] = r.k[j], r.k[i]
-	r.o[i], r.o[j] = r.o[j], r.o[i]
-}
-
-func mkRecs(ds ([]int)) *recs {
-	r := &recs{k: make([]int32, len(ds)), o: make([]int32, len(ds))}
-	for i, d := range ds {
-		r.k[i] = int32(d)
-		r.o[i] = int32(i)
-	}
-	return r
-}
-`
 	sortBody := `
 ds := seqDigits(a0, KK)
 a := make([]int, len(ds))
@@ -1076,6 +988,9 @@ rI(int64(sort.SearchFloat64s(fl, float64(th))))`))
 	// ---------------------------------------------------------------- container/*
 	add(containerFns(thorough)...)
 
+	// ---------------------------------------------------------------- inputs on both sides of every size threshold
+	add(thresholdFns(thorough)...)
+
 	if !thorough {
 		var q []*fn
 		for _, f := range fs {
@@ -1094,3 +1009,101 @@ rI(int64(sort.SearchFloat64s(fl, float64(th))))`))
 	}
 	return fs
 }
+
+// declarations shared by several generated functions (identical texts are emitted once per program)
+// sequences are decoded from the index inside the body: length l = first l with idx < k^l (cumulative)
+const seqDecl = `// seqDigits decodes sequence number idx (all sequences over k symbols by length, then lexicographic)
+func seqDigits(idx int64, k int64) []int {
+	l := 0
+	p := int64(1)
+	for idx >= p {
+		idx -= p
+		p *= k
+		l++
+	}
+	d := make([]int, l)
+	for i := l - 1; i >= 0; i-- {
+		d[i] = int(idx % k)
+		idx /= k
+	}
+	return d
+}
+`
+
+// ---------------------------------------------------------------- sort
+const sortDecl = `type recs struct {
+	k ([]int32)
+	o ([]int32)
+}
+
+func (r *recs) Len() int           { return len(r.k) }
+func (r *recs) Less(i, j int) bool { return r.k[i] < r.k[j] }
+func (r *recs) Swap(i, j int) {
+	r.k[i], r.k[j] = r.k[j], r.k[i]
+	r.o[i], r.o[j] = r.o[j], r.o[i]
+}
+
+func mkRecs(ds ([]int)) *recs {
+	r := &recs{k: make([]int32, len(ds)), o: make([]int32, len(ds))}
+	for i, d := range ds {
+		r.k[i] = int32(d)
+		r.o[i] = int32(i)
+	}
+	return r
+}
+`
+
+const dataDecl = `func mkData(n int64, pat int64) []byte {
+	b := make([]byte, int(n))
+	for i := range b {
+		if pat == 0 {
+			b[i] = 0
+		} else if pat == 1 {
+			b[i] = 0xff
+		} else if pat == 2 {
+			b[i] = byte(i*7 + 3)
+		} else {
+			b[i] = byte(0x20 + i%0x60)
+		}
+	}
+	return b
+}
+`
+
+const encDecl = `func b64(k int64) *base64.Encoding {
+	if k == 0 {
+		return base64.StdEncoding
+	}
+	if k == 1 {
+		return base64.URLEncoding
+	}
+	if k == 2 {
+		return base64.RawStdEncoding
+	}
+	if k == 3 {
+		return base64.RawURLEncoding
+	}
+	return base64.StdEncoding.Strict()
+}
+`
+
+const enc32Decl = "func b32(k int64) *base32.Encoding {\n\tif k == 0 {\n\t\treturn base32.StdEncoding\n\t}\n\treturn base32.HexEncoding\n}\n"
+
+const sameInt = "func sameInt(s string, base int) bool {\n\tx, e1 := strconv.ParseInt(s, base, 32)\n\ty, e2 := strconv.ParseInt(s, base, 64)\n\treturn x == y && (e1 == nil) == (e2 == nil)\n}\n"
+
+const mkFDecl = `func mkF64(i int) float64 {
+	mant := []uint64{0, 1, 2, 0x8000000000000, 0xfffffffffffff, 0xffffffffffffe, 0x5555555555555, 0xaaaaaaaaaaaaa, 0x0000000100000, 0x7ffffffffffff, 0x8000000000001, 0x123456789abcd, 0xc000000000000, 0x0000000000fff, 0xe147ae147ae14, 0x999999999999a}
+	e := uint64(i % 2047)
+	m := mant[(i/2047)%16]
+	s := uint64(i / 2047 / 16)
+	return math.Float64frombits(s<<63 | e<<52 | m)
+}
+
+func mkF32(i int) float32 {
+	mant := []uint32{0, 1, 2, 0x400000, 0x7fffff, 0x7ffffe, 0x555555, 0x2aaaaa, 0x000100, 0x3fffff, 0x400001, 0x123456, 0x600000, 0x000fff, 0x4ccccd, 0x19999a}
+	e := uint32(i % 255)
+	m := mant[(i/255)%16]
+	s := uint32(i / 255 / 16)
+	return math.Float32frombits(s<<31 | e<<23 | m)
+}
+`
